@@ -102,7 +102,19 @@ def create_load_table(
                     create_table_file = True
                     break
 
-    if (create_table_file or force_create) and not force_load:
+    table = None
+    if not (create_table_file or force_create) or force_load:
+        if debug:
+            h_print(f"Loading LR table from '{table_file_name}'")
+        try:
+            table = load_table(table_file_name, grammar)
+        except ValueError:
+            # Not a complete table file (e.g. left by an interrupted write).
+            # Recalculate the table unless loading is explicitly requested.
+            if force_load:
+                raise
+
+    if table is None:
         table = create_table(
             grammar,
             itemset_type,
@@ -115,10 +127,6 @@ def create_load_table(
         if table_file_name:
             with contextlib.suppress(PermissionError):
                 save_table(table_file_name, table)
-    else:
-        if debug:
-            h_print(f"Loading LR table from '{table_file_name}'")
-        table = load_table(table_file_name, grammar)
 
     return table
 
